@@ -176,6 +176,15 @@ def probes() -> list[Item]:
     out.append(Item(Prog(accounts={TARGET: code}, calldata=[Sym("cd0", 256), Sym("cd1", 256)], name="hash-const-minus-one",
                          meta={"bounded_inputs": {"cd0": 2**64, "cd1": 2**64}}),
                     [{"cd0": 1, "cd1": 0}, {"cd0": 5, "cd1": 4}, {"cd0": 5, "cd1": 5}, {"cd0": 0, "cd1": 0}], key="probe:hash-const-minus-one"))
+    # a mapping element written through the PUSH32 constant keccak(K . P) of halmos' precomputed table (never hashed at run
+    # time before) and read through the run-time hash of a symbolic key: the same slot for key = K, another one otherwise
+    for K, P in ((1, 7), (0, 5), (1, 0)):
+        kc = int.from_bytes(keccak(K.to_bytes(32, "big") + P.to_bytes(32, "big")), "big")
+        body = [("PUSH", 0x2A), ("PUSHN", 32, kc), "SSTORE",
+                ("PUSH", 0), "CALLDATALOAD", ("PUSH", 0x200), "MSTORE", ("PUSH", P), ("PUSH", 0x220), "MSTORE", ("PUSH", 64), ("PUSH", 0x200), "SHA3", "SLOAD"]
+        it = prog(f"precomputed-mapping-const-vs-runtime-{K}-{P}", body)
+        it.inputs = [{"cd0": K}, {"cd0": P}, {"cd0": 1 - K}, {"cd0": 1 << 255}]
+        out.append(it)
     # a callee that fails on both sides of a symbolic branch: the caller goes on along two paths, each of which increments a
     # slot (scalar, mapping element, transient) it has never written: what one path stores the other must not load
     failer = assemble([("PUSH", 0), "CALLDATALOAD", ("PUSH", 1), "AND", ("PUSHL", "o"), "JUMPI", ("PUSH", 0), ("PUSH", 0), "REVERT", ("LABEL", "o"), "INVALID"])
